@@ -61,9 +61,13 @@ class Template:
         shutil.rmtree(self.base, ignore_errors=True)
 
 
-def _call(fn):
+def _call(fn, want_etag=None, flags=None, key=None):
+    """flags[key]: did an acknowledged put answer with the etag of what it stored?"""
     try:
-        fn()
+        r = fn()
+        if want_etag is not None and flags is not None:
+            got = r[1] if isinstance(r, tuple) and len(r) == 2 else None
+            flags[key] = (got == want_etag)
         return "ok"
     except InvalidETag:
         return "InvalidETag"
@@ -91,14 +95,15 @@ def store_view(store, tmpl):
     return out
 
 
-def make_op(store, tmpl, op):
+def make_op(store, tmpl, op, flags=None, key=None):
     if op["t"] == "read":
         return lambda: _call(lambda: store_view(store, tmpl))
     name = NAMES[op["n"]]
     cond = tmpl.etags[op["cond"]] if op["cond"] else None
     if op["t"] == "put":
         data = CONTENT[op["b"]]()
-        return lambda: _call(lambda: store.import_one(name, "text/calendar", [data], replace_etag=cond))
+        return lambda: _call(lambda: store.import_one(name, "text/calendar", [data], replace_etag=cond),
+                             want_etag=tmpl.etags[op["b"]], flags=flags, key=key)
     return lambda: _call(lambda: store.delete_one(name, etag=cond))
 
 
@@ -131,9 +136,10 @@ def run_schedule(tmpl, opa, opb, plan, shared=True, opc=None):
         sa = _load(GitStore.open_from_path(path))
         sb = sa if shared else _load(GitStore.open_from_path(path))
         sc = sched.Scheduler(path, 2)
+        flags = {}
         with sc:
-            ta = sc.spawn("A", make_op(sa, tmpl, opa))
-            tb = sc.spawn("B", make_op(sb, tmpl, opb))
+            ta = sc.spawn("A", make_op(sa, tmpl, opa, flags, "A"))
+            tb = sc.spawn("B", make_op(sb, tmpl, opb, flags, "B"))
             for (w, n) in plan:
                 if n is None:
                     sc.finish(w)
@@ -154,7 +160,7 @@ def run_schedule(tmpl, opa, opb, plan, shared=True, opc=None):
         mid = None
         if opc is not None:
             mid = read_final(path, tmpl)[0]      # the state the overlapped pair left behind
-            res["C"] = make_op(sa, tmpl, opc)()
+            res["C"] = make_op(sa, tmpl, opc, flags, "C")()
         # what the long-lived store objects serve afterwards (must be the state on disk)
         views = []
         for st in ([sa] if shared else [sa, sb]):
@@ -181,6 +187,7 @@ def run_schedule(tmpl, opa, opb, plan, shared=True, opc=None):
                 "res": res if "C" in res else dict(res, C="none"), "final": final,
                 "mid": mid if mid is not None else final,
                 "views_ok": all(v == final for v in views),
+                "etag_ok": {w: bool(flags.get(w, True)) for w in ("A", "B", "C")},
                 "err": {w: res[w].startswith("Error:") for w in res}, "phase": phase,
                 "opens": opens, "fsck": fsck, "clean": clean, "stuck": sc.stuck,
                 "sched": [[w, g] for (w, g) in sc.trace],
